@@ -18,6 +18,7 @@ Section extra.
   (** [tp] is [tm] plus the hold [hk], whose name is pending in [tp]; no extra failures *)
   Definition Ext (hk : hold) (tm tp : tstate) : Prop :=
     t_now tp = t_now tm ∧ t_pending tp = h_name hk :: t_pending tm ∧ t_waiters tp = t_waiters tm ∧
+    t_keys tp = t_keys tm ∧ t_sids tp = t_sids tm ∧
     t_holds tp ≡ₚ hk :: t_holds tm ∧ ∀ x, x ∈ t_fail tp → x ∈ t_fail tm.
 
   Lemma cap_ok_Ext hk w a hsm hsp pd : alive a hk = true → hsp ≡ₚ hk :: hsm →
@@ -30,7 +31,7 @@ Section extra.
   Lemma done1_Ext hk tm tp c : alive (c_at c) hk = true →
     Ext hk tm tp → Ext hk (done1 cfg i cause tm c) (done1 cfg i cause tp c).
   Proof.
-    intros Ha (En & Ep & Ew & Hh & Hf). rewrite !done1_eq. rewrite Ew, Ep. split_and!; simpl; try done.
+    intros Ha (En & Ep & Ew & Ek & Es & Hh & Hf). rewrite !done1_eq. rewrite Ew, Ep, Ek. split_and!; simpl; try done.
     - unfold dh. destruct (findw _ _) as [|w rest]; [done|]. unfold ef. rewrite (lfilter_perm _ _ _ Hh). simpl. by rewrite Ha.
     - intros x. rewrite !elem_of_app. intros [Hx|Hx]; [left|right; by apply Hf].
       unfold df in *. destruct (findw _ _) as [|w rest]; [done|]. destruct (is_grant (c_resp c)); [|done].
@@ -59,7 +60,8 @@ Qed.
 
 Definition TRP (X : nat → string → Prop) (cfg : config) (s : sstate) (t : tstate) : Prop :=
   ∃ n hk tm, t_pending t = [n] ∧ h_name hk = n ∧ ¬ SeqDefs.live s n (h_key hk) ∧ TR X cfg s tm ∧
-    t_holds t ≡ₚ hk :: t_holds tm ∧ t_waiters t = t_waiters tm ∧ t_now t = t_now tm ∧ fails_ok X t.
+    t_holds t ≡ₚ hk :: t_holds tm ∧ t_waiters t = t_waiters tm ∧ t_now t = t_now tm ∧
+    t_keys t = t_keys tm ∧ t_sids t = t_sids tm ∧ fails_ok X t.
 
 Lemma ipc_candidate_live cfg s n k : Inv cfg s → k ∈ ipc_candidates n s → SeqDefs.live s n k.
 Proof.
@@ -137,7 +139,7 @@ Section ipcname.
       { pose proof (hr_lease _ _ _ _ _ _ (tr_holds _ _ _ _ HT) Hsh hk Hhk) as Hl. rewrite Hl. unfold tdl.
         destruct (st_timers s !! tkey (h_name hk) (h_key hk)) as [tm'|] eqn:Et; simpl; [|lia].
         by destruct (inv_timers _ _ HI _ _ Et) as (_ & ? & _). }
-      assert (Ext hk tm tp) as (En & Ep & Ew & Hh & Hf).
+      assert (Ext hk tm tp) as (En & Ep & Ew & Ek & Es & Hh & Hf).
       { unfold tm, tp. rewrite !t_completions_eq. apply done_list_Ext.
         - intros c Hc. rewrite sort_completions_eq, sortc_perm in Hc.
           rewrite Hco in Hc. destruct c as [[w a] r']. apply elem_of_comps in Hc. destruct (Ho _ Hc) as (w' & key & [= -> -> ->] & _).
@@ -172,7 +174,7 @@ Section ipcname.
   Lemma track_probe_pending_ok s t : Inv cfg s → TRP X cfg s t →
     TR X cfg s (track_step0 cfg i EProbe [OListing (listing s); OFile (file_view s); OTable (table_view s)] t).
   Proof.
-    intros HI (n & hk & tm & Ep & Hhn & Hdead & HTm & Hh & Ew & En & HX).
+    intros HI (n & hk & tm & Ep & Hhn & Hdead & HTm & Hh & Ew & En & Ek & Es & HX).
     pose proof (track_probe_ok X cfg i s tm HI HTm) as HP. simpl in *. unfold t_probe in *. simpl in *.
     rewrite (resolve_pending_nil _ _ (tr_pending _ _ _ _ HTm)) in HP.
     set (th := table_holds (table_view s)) in *.
@@ -194,7 +196,8 @@ Section ipcname.
       apply bool_decide_eq_false. intros E2. apply bool_decide_eq_true in E1. apply Hdead.
       destruct (hr_tab _ _ _ _ _ _ (tr_holds _ _ _ _ HTm) h Hh') as [Hi _]. apply intab_livel in Hi. simpl in Hi. by rewrite E1, E2 in Hi. }
     assert (TR X cfg s t') as HT'.
-    { destruct HTm as [H1 H2 H3 H4 H5]. split; simpl; [congruence|done|eapply HR_perm; [symmetry; exact Hhp|exact H3]|congruence|exact HX]. }
+    { destruct HTm as [H1 H2 H3 H4 H5 H6]. split; simpl; [congruence|done|eapply HR_perm; [symmetry; exact Hhp|exact H3]|congruence| |exact HX].
+      unfold KI in *. simpl. by rewrite Ek, Es. }
     clear HP. pose proof (track_probe_ok X cfg i s t' HI HT') as HP. simpl in HP. unfold t_probe in HP. simpl in HP.
     rewrite (resolve_pending_nil _ t') in HP by done. exact HP.
   Qed.
